@@ -146,6 +146,35 @@ func (vc *VC) intBinop(st *State, op token.Token, x, y *Term, rt types.Type, pos
 		return r
 	}
 	switch op {
+	case token.AND, token.OR, token.XOR, token.AND_NOT:
+		// an operand that is a choice between two literals: decide per alternative
+		for k, o := range []*Term{y, x} {
+			il, ok := vc.iteLit[o.S]
+			if !ok {
+				continue
+			}
+			alt := func(lit string) *Term {
+				l := &Term{lit, o.Sort, o.T}
+				if k == 0 {
+					return vc.intBinop(st, op, x, l, rt, pos)
+				}
+				return vc.intBinop(st, op, l, y, rt, pos)
+			}
+			a, b := alt(il[1]), alt(il[2])
+			return res(ite(il[0], a.S, b.S))
+		}
+	}
+	if op == token.XOR && !signed {
+		// x ^ (2^bits - 1) is the complement
+		ones := new(big.Int).Sub(pow2big(bits), big.NewInt(1))
+		if n, ok := vc.litVal(y.S); ok && n.Cmp(ones) == 0 {
+			return res("(- " + ones.String() + " " + x.S + ")")
+		}
+		if n, ok := vc.litVal(x.S); ok && n.Cmp(ones) == 0 {
+			return res("(- " + ones.String() + " " + y.S + ")")
+		}
+	}
+	switch op {
 	case token.ADD:
 		return arith("(+ "+x.S+" "+y.S+")", "addition")
 	case token.SUB:
